@@ -72,6 +72,8 @@ func PathValues(p protopath.Path, m proto.Message) (protopath.Values, error) {
 			if !cursor.IsValid() {
 				return protopath.Values{}, fmt.Errorf("%d: cursor map missing key %v", i, step.MapIndex())
 			}
+			// Continue from the map's value, not from the synthetic map entry message.
+			desc = fd.MapValue()
 			v.Values = append(v.Values, cursor)
 		case protopath.AnyExpandStep:
 			if desc != step.MessageDescriptor() {
